@@ -44,6 +44,25 @@ theorem api_is_unprivileged : ∀ p ∈ PB.Gen.DbPerm.apiInterfaces, p = (false,
     internal — the in-process constructor and the websocket endpoint alike. -/
 theorem api_constructors_unprivileged : ∀ c ∈ PB.Gen.DbPerm.apiConstructors, c.2 = (false, false) := by decide
 
+/-- The privileges an interface acts with are the ones its creator put into the options, for every cache setting: no
+    function of package database (regenerated list over all non-test files) writes `Local` / `Internal` of an `Options`
+    value, replaces the options of an `Interface`, or builds options of its own — `NewInterface` in particular raises
+    neither flag, whatever `CacheSize` / `DelayCachedWrites` say. The model's `Opts` (which every theorem below
+    quantifies over, `cache := .delay` included) are therefore the options handed to `NewInterface`. -/
+theorem source_interface_keeps_requested_privileges : PB.Gen.DbPerm.optionPrivilegeWrites = [] := by decide
+
+/-- A delayed write cache on an interface that is not both local and internal (nothing in `NewInterface` forbids the
+    combination): `FlushCache` goes through `PutMany`, which refuses it — the storage, the read cache and the
+    subscribers' feed are what they were, whatever waits in the write set. -/
+theorem flush_without_all_permissions_stores_nothing (cfg : Cfg) (o : Opts) (st : ISt) (now : Int)
+    (ha : o.all = false) :
+    (ifFlush cfg o st now).1.store = st.store ∧ (ifFlush cfg o st now).1.cache = st.cache ∧
+    (ifFlush cfg o st now).1.notes = st.notes := by
+  unfold ifFlush; split <;> simp [ha]
+
+example : (ifFlush {} { loc := true, int := false, cache := .delay }
+    { wcache := [{ key := "k" }] } 100).1.store = [] := by decide
+
 /-- More privileges never see less. -/
 theorem permitted_monotone (m : Meta) (l i l' i' : Bool) (hl : l = true → l' = true) (hi : i = true → i' = true)
     (h : m.permitted l i = true) : m.permitted l' i' = true := by
